@@ -202,6 +202,39 @@ def run (ctx):
            "payload.prev = self on every such path" if holds else
            "when the payload already has a `prev` (it was parsed from, or built under, another header) it keeps pointing at the old carrier: UDP/TCP/ICMPv6 checksums are then computed over the "
            "old header's addresses - the emitted segment's checksum is wrong for the header actually sent", sp, 'D3')
+  # ... and changes nothing else: a payload object may sit under several headers at once (a parsed frame whose inner packet is put
+  # under a new outer header for forwarding); the former carrier still serialises with it, so its `next` is not set_payload's to clear
+  other = [(t, st) for t, v, st, k in q.stores_in(sp.node) if isinstance(t, ast.Attribute) and not (norm(t) in ('self.next', pp_ + '.prev'))]
+  ctx.ob('R-OWN', sp, "set_payload writes only self.next and the payload's prev", not other, "no other attribute store" if not other else
+         "`%s` changes another object: after a parsed packet's payload is attached to a second header, the first one has lost it - serialising the unmodified parse result no longer reproduces its bytes (only the outer header is emitted)"
+         % norm(other[0][1])[:60], (pbm, other[0][1]) if other else sp, 'D3')
+  # a packet object's truth value is its `parsed` flag (packet_base.__bool__): a header that was *built* is falsy.  Serialisation code
+  # therefore never decides "is there a payload" by truthiness of something that can be a packet object
+  pb_bool = pbc_.methods.get('__bool__') or pbc_.methods.get('__nonzero__')
+  by_flag = pb_bool is not None and any(isinstance(x_, ast.Attribute) and x_.attr == 'parsed' for x_ in ast.walk(pb_bool.node))
+  n_truth = 0
+  if by_flag:
+    for mod in mods:
+      for cls in mod.classes.values():
+        for fn_ in cls.methods.values():
+          if fn_.name not in ('checksum', 'hdr', 'pack', 'pre_hdr', 'post_hdr', '_pack_body', 'set_payload'): continue
+          n_truth += 1
+          cand = set(['self.next', 'self.payload']) | set(p_ for p_ in fn_.params if p_ in ('payload',))
+          for t_, v_, st_, k_ in q.stores_in(fn_.node, nested=False):
+            if isinstance(t_, ast.Name) and v_ is not None and norm(v_) in ('self.next', 'self.payload'): cand.add(t_.id)
+          for x_ in walk_no_nested(fn_.node):
+            hit = None
+            if isinstance(x_, ast.BoolOp) and norm(x_.values[0]) in cand: hit = x_
+            elif isinstance(x_, (ast.If, ast.IfExp, ast.While)) and (norm(x_.test) in cand or (isinstance(x_.test, ast.UnaryOp) and isinstance(x_.test.op, ast.Not) and norm(x_.test.operand) in cand)): hit = x_.test
+            if hit is None: continue
+            # fine when a dominating fact already says it is not a packet object
+            gfn_ = q.cfg_of(fn_); sn_ = q.enclosing_stmt_node(gfn_, hit)
+            fs_ = q.fact_strs(gfn_, sn_) if sn_ is not None else []
+            if any('isinstance(' in f_ and 'packet_base' in f_ and f_.endswith(':falsy') for f_ in fs_): continue
+            ctx.bad('R-AGREE', fn_, "the payload's presence is not decided by its truth value (`%s`)" % norm(hit)[:40],
+                    "`%s` treats a falsy payload as absent, but packet_base.__bool__ is the `parsed` flag: a payload that is a *built* header object (DHCP under UDP, an inner packet under a tunnel header) counts as absent - "
+                    "lengths / checksums are computed over an empty body while the real body is emitted" % norm(hit)[:50], (mod, hit), 'D3')
+    ctx.floor('serialisation methods scanned for payload truth tests', n_truth, 40)
   # ---- D5 over every build method of the packet library -------------------------------------------------
   n_build = 0
   for mod in mods:
@@ -483,6 +516,12 @@ def _skipwords (ctx, repo):
       if call_name(c) == 'checksum' and len(c.args) == 3 and isinstance(c.func, ast.Name):
         k = q.try_int(c.args[2])
         cn = q.enclosing_stmt_node(g, c)
+        k_emit = k
+        if k is None and cn is not None and 'unparsed' in f.params:
+          # the skip word depends on the mode: verification of a received segment (unparsed=True) / emission (unparsed=False)
+          kv = q.values_at(repo, mod, g, q.Env({'unparsed': True}), cn, c.args[2], cls); ke = q.values_at(repo, mod, g, q.Env({'unparsed': False}), cn, c.args[2], cls)
+          k = list(kv)[0] if len(kv) == 1 and isinstance(list(kv)[0], int) else None
+          k_emit = list(ke)[0] if len(ke) == 1 and (isinstance(list(ke)[0], int) or list(ke)[0] is None) else '?'
         fs = q.fact_strs(g, cn) if cn else []
         ver = 4 if 'ip_ver == 4' in fs else (6 if 'ip_ver == 6' in fs else None)
         # pseudo header size from the code under the same guard
@@ -503,6 +542,21 @@ def _skipwords (ctx, repo):
         n += 1
         ctx.ob('R-AGREE', f, "%s over IPv%d: skip word == (pseudo-header %d + checksum offset %d) / 2" % (cname.upper(), ver, size, cs_off), k == want,
                "%d" % k if k == want else "checksum() is told to skip word %d but the checksum field is word %d of pseudo-header+segment: verification of received segments sums the wrong word" % (k, want), (mod, c), 'D4')
+        if k_emit != k and k_emit != '?':
+          # emission does not skip the word: then the header it sums must carry a zero checksum field - hdr(..., calc_checksum=False) evaluated
+          # with a stale non-zero self.csum
+          zero = None
+          hg = q.cfg_of(hf)
+          hp = [(n_, c_) for n_ in hg.nodes for c_ in q.node_calls(n_) if call_name(c_) == 'pack' and norm(c_.func.value) == 'struct' and any(isinstance(a_, ast.Name) and a_.id == 'csum' or norm(a_) == 'self.csum' for a_ in c_.args[1:])]
+          if hp and 'calc_checksum' in hf.params:
+            n_, c_ = hp[0]
+            a_ = [a_ for a_ in c_.args[1:] if isinstance(a_, ast.Name) and a_.id == 'csum' or norm(a_) == 'self.csum'][0]
+            vs = q.values_at(repo, mod, hg, q.Env({'calc_checksum': False, 'self.csum': 0x1234, 'calc_off': False}), n_, a_, cls)
+            zero = vs == {0}
+          ctx.ob('R-AGREE', f, "%s over IPv%d: when a segment is emitted its own checksum field does not enter the sum" % (cname.upper(), ver), bool(zero),
+                 "hdr(calc_checksum=False) packs a zero checksum field" if zero else
+                 "on emission checksum() skips word %s (not word %d) and the header it sums is packed with the stored self.csum: a segment whose csum is already non-zero - one that was parsed, or packed before - is emitted with a "
+                 "checksum that includes the stale value; receivers reject it" % (k_emit, want), (mod, c), 'D4')
   ctx.floor('skip-word constants', n, 4)
 
 def _option_packers (ctx, repo):
